@@ -362,6 +362,8 @@ pub fn multibyte_ops() -> Vec<Vec<u8>> {
         vec![0x3c, 0x3f], vec![0x00, 0x10], vec![0xff, 0xff, 0x01], vec![0x40], vec![0x80], vec![0xc0], vec![0x01, 0x40],
         vec![0xff, 0xfe, 0x80], vec![0, 0, 0, 0, 0, 1], vec![0x7f, 0xff, 0xff, 0xff, 0xc1], vec![0x0f, 0xff, 0xff, 0x81],
         vec![0x13, 0xd6, 0x1f, 0x00], vec![0x1c, 0x3a, 0x8f, 0x00], vec![0x13, 0xd6, 0x1f, 0x01], vec![0x00, 0x03], vec![0x00],
+        // canonical multi-byte integers whose LOW byte is an assigned opcode (a dispatcher that truncates would run it)
+        vec![0x01, 0x10], vec![0x01, 0x0b], vec![0x01, 0x00, 0x04],
     ]
 }
 
@@ -1086,6 +1088,59 @@ pub fn p_vectors(per_group: usize) -> ProgSpace {
     progs.push(list(&[atom(&[58])]).ser());
     let total = progs.len() as u64;
     ProgSpace { name: format!("PV({} programs from op-tests vectors)", progs.len()), total, get: Box::new(move |i| (tree::deser(&progs[i as usize]).unwrap().0, nil())) }
+}
+
+/// PV-MUT: one succeeding op-tests vector per (file, operator); every single-argument mutation of it: argument i
+/// replaced by each atom of A12, a pair, a 300-byte atom and a 32-byte atom; argument i dropped; one extra argument.
+/// Reaches the validation code behind the first well-typed arguments of every operator (coinid amount, secp
+/// signature, BLS points and scalars ...).
+pub fn p_vector_mutations() -> ProgSpace {
+    use std::collections::BTreeSet;
+    let files = [
+        "test-bls-ops.txt", "test-blspy-g1.txt", "test-blspy-g2.txt", "test-blspy-hash.txt", "test-blspy-pairing.txt", "test-blspy-verify.txt",
+        "test-bls-zk.txt", "test-secp-verify.txt", "test-secp256k1.txt", "test-secp256r1.txt", "test-keccak256.txt", "test-sha256tree.txt",
+        "test-modpow.txt", "test-more-ops.txt", "test-core-ops.txt", "test-sha256.txt",
+    ];
+    let mut repl: Vec<T> = atoms_t(&a12());
+    repl.push(cons(atom(&[1]), atom(&[2])));
+    repl.push(atom(&big_atom(300)));
+    repl.push(atom(&big_atom(32)));
+    let mut seen: BTreeSet<(String, String, usize)> = BTreeSet::new();
+    let mut progs: BTreeSet<Vec<u8>> = BTreeSet::new();
+    for f in files {
+        for v in crate::vectors::load(f) {
+            if v.expect.is_none() {
+                continue;
+            }
+            let mut items = vec![];
+            let mut cur = v.args.clone();
+            while let T::P(a, b) = &cur {
+                items.push((**a).clone());
+                let n = (**b).clone();
+                cur = n;
+            }
+            // one vector per (file, operator, arity)
+            if items.is_empty() || items.len() > 6 || !seen.insert((f.to_string(), v.opname.clone(), items.len())) {
+                continue;
+            }
+            for i in 0..items.len() {
+                for r in &repl {
+                    let mut m = items.clone();
+                    m[i] = r.clone();
+                    progs.insert(quoted_call(&v.op, &list(&m)).ser());
+                }
+                let mut m = items.clone();
+                m.remove(i);
+                progs.insert(quoted_call(&v.op, &list(&m)).ser());
+            }
+            let mut m = items.clone();
+            m.push(atom(&[1]));
+            progs.insert(quoted_call(&v.op, &list(&m)).ser());
+        }
+    }
+    let progs: Vec<Vec<u8>> = progs.into_iter().collect();
+    let total = progs.len() as u64;
+    ProgSpace { name: format!("PV-MUT({total} single-argument mutations of succeeding op-tests vectors)"), total, get: Box::new(move |i| (tree::deser(&progs[i as usize]).unwrap().0, nil())) }
 }
 
 // ---------------------------------------------------------------------
